@@ -124,7 +124,12 @@ def cellsize_binding(prog, rep, public, path, f0, kern, params, expect):
 
     expect: kernel param -> expression text over cellsize_x / cellsize_y (public-level resolution components)."""
     entry = '%s[numpy]' % public.name
-    # resolution unpacking in the public function
+    # resolution unpacking in the public function (read with its small helpers inlined: the cell size may be computed there)
+    if getattr(path.scope, 'inlined_from', None) is public:
+        public = path.scope
+    else:
+        from ..inline import inline_view
+        public = inline_view(prog, public)
     res = {}
     for n in public.own_nodes():
         if isinstance(n, ast.Assign) and isinstance(n.value, ast.Call):
@@ -136,6 +141,11 @@ def cellsize_binding(prog, rep, public, path, f0, kern, params, expect):
                     res[tgt.elts[1].id] = Rat.sym('cellsize_y')
                     rep.add('S7-res', public, entry, norm(n), n.lineno, True,
                             'resolution unpacked as (x, y)', trivial=True)
+                elif isinstance(tgt, ast.Name):
+                    # kept as one pair: components are read by position (pair[0] = x, pair[1] = y, *pair in that order)
+                    from ..kai import TupleV
+                    res[tgt.id] = TupleV([Rat.sym('cellsize_x'), Rat.sym('cellsize_y')])
+                    rep.add('S7-res', public, entry, norm(n), n.lineno, True, 'resolution kept as the pair (x, y)', trivial=True)
     if not res:
         rep.add('S7-res', public, entry, 'get_dataarray_resolution(..) unpacking', public.node.lineno, None,
                 'resolution call not found in %s' % public.qualname)
@@ -152,7 +162,14 @@ def cellsize_binding(prog, rep, public, path, f0, kern, params, expect):
                     pass
     # actuals of the dispatch call bound to f0's params, then f0 -> kern call
     bind0 = {}
-    for p, a in zip(f0.params, path.args):
+    actuals = []
+    for a in path.args:
+        if isinstance(a, ast.Starred) and isinstance(a.value, ast.Name) and hasattr(res.get(a.value.id), 'items'):
+            for i_ in range(len(res[a.value.id].items)):
+                actuals.append(ast.Subscript(value=a.value, slice=ast.Constant(value=i_), ctx=ast.Load()))
+        else:
+            actuals.append(a)
+    for p, a in zip(f0.params, actuals):
         bind0[p] = a
     for kname, a in path.keywords.items():
         bind0[kname] = a
